@@ -3,6 +3,8 @@ package hs
 import (
 	"fmt"
 
+	"verifharness/core"
+
 	"verifharness/pg"
 	"verifharness/tr"
 )
@@ -27,6 +29,16 @@ func (cl *Client) Step(b []byte) (out []byte, closed bool) {
 // Wait waits for quiescence and returns the new server bytes.
 func (cl *Client) Wait() (out []byte, closed bool) {
 	closed, ok := cl.C.Quiesce()
+	// the watchdog is a wall-clock limit: on a machine with many times more runnable threads than cores a
+	// step can take longer than it allows. As long as no library goroutine is blocked or spinning and the
+	// connection still has a goroutine serving it, the wait goes on (up to six more watchdog periods)
+	for extra := 0; extra < 6 && !ok; extra++ {
+		dump, lib := core.ClassifyHang()
+		if len(lib) > 0 || cl.C.Abandoned(dump) {
+			break
+		}
+		closed, ok = cl.C.Quiesce()
+	}
 	if !ok {
 		cl.Hung = true
 	}
@@ -40,6 +52,9 @@ func (cl *Client) Startup(user string, extra ...[2]string) ([]pg.BMsg, error) {
 	params := [][2]string{{"user", user}}
 	params = append(params, extra...)
 	out, _ := cl.Step(pg.Startup(params))
+	if cl.Hung {
+		return nil, fmt.Errorf("%sthe start-up was not answered within the wall-clock watchdog", HungPrefix)
+	}
 	msgs, rest, err := pg.ParseStream(out)
 	if err != nil {
 		return msgs, err
@@ -70,3 +85,7 @@ func (cl *Client) Finish() (out []byte, ok bool) {
 	cl.pos += len(out)
 	return out, ok
 }
+
+// HungPrefix marks an error that is a watchdog firing, not an answer of the server (core.Ctx.Violate turns a
+// violation whose detail starts with it into an inconclusive note: a watchdog alone is never a verdict).
+const HungPrefix = core.HungPrefix
